@@ -177,11 +177,15 @@ pub fn collect_spans(ty: &Ty, v: &Val, path: &mut Vec<PathSeg>, out: &mut Vec<(V
             for (k, x) in kvs {
                 let ks = match k {
                     Val::Spanned(s, e, inner) => {
-                        if let Val::Str(ks) = &**inner {
+                        let ks = match &**inner {
+                            Val::Str(ks) => Some(ks.clone()),
+                            other => crate::model::key_string(&kt.despanned(), other),
+                        };
+                        if let Some(ks) = ks {
                             let mut p = path.clone();
                             p.push(PathSeg::K(ks.clone()));
                             out.push((p, *s, *e, true));
-                            Some(ks.clone())
+                            Some(ks)
                         } else {
                             None
                         }
